@@ -1,7 +1,7 @@
 (* C02 — the invariant [orep] implies that the executable abstraction [abs] reads the denoted value
    (in particular the value is acyclic), and the end-user form of the update theorem. *)
 From Coq Require Import List ZArith NArith Bool Lia.
-From Verif Require Import c02.Path c02.PathProofs c02.HeapPath c02.HeapInv c02.HeapProofs c02.HeapSlice.
+From Verif Require Import c02.Path c02.PathProofs c02.HeapPath c02.HeapInv c02.HeapProofs c02.HeapSlice c02.HeapInner.
 Import ListNotations.
 Open Scope nat_scope.
 
@@ -79,7 +79,7 @@ Theorem abs_update : forall p h ps v j fp n jn,
   end.
 Proof.
   intros p h ps v j fp n jn Hwf Hr ND Hn Hns. unfold setpath.
-  pose proof (update_sound_ok current p Hns h ps v j fp n jn Hwf Hr ND Hn) as H.
+  pose proof (update_sound_ok current p eq_refl Hns h ps v j fp n jn Hwf Hr ND Hn) as H.
   destruct (Path.update j p jn) as [j'|]; auto.
   destruct H as (h' & ps' & u & fp' & Hu & Hr' & ND' & Hpost).
   exists h', ps', u, fp'. split; auto. split. { intros. eapply orep_abs; eauto. }
